@@ -176,8 +176,13 @@ type Case struct {
 }
 
 // RunText runs source text in a fresh golua session.
+// SessOptions gives the options of the golua sessions the engine creates
+// (a check may run its cases in runtimes created with options, e.g. inside a
+// runtime context that has a host message handler).
+var SessOptions = func() gl.Options { return gl.Options{} }
+
 func RunText(text string, args []Arg) *gl.Outcome {
-	s := gl.NewSess(gl.Options{})
+	s := gl.NewSess(SessOptions())
 	defer s.Close()
 	clos, out := s.Compile(ChunkName, text)
 	if out != nil {
@@ -258,7 +263,7 @@ func CheckVariant(p *lg.Program, text string, lines lg.Lines, args []Arg, v Vari
 		return c
 	}
 	c.Events = len(c.Want.Trace)
-	s := gl.NewSess(gl.Options{})
+	s := gl.NewSess(SessOptions())
 	defer s.Close()
 	if v.HostPrelude != "" {
 		pc, out := s.Compile("prelude", v.HostPrelude)
